@@ -20,6 +20,7 @@ import vlib
 import gen_msg
 import msgcommon as mc
 import evalcommon as ec
+import lbuf
 
 BATTERY = os.path.join(vlib.HARNESS, 'fuzz', 'battery.conf')
 DICT = os.path.join(vlib.HARNESS, 'fuzz', 'msg.dict')
@@ -333,7 +334,9 @@ def run(rep):
         'memory safety of the C code itself is NOT a theorem: the model is over byte lists, where a read past the terminator cannot be '
         'expressed; it is observed with AddressSanitizer/UndefinedBehaviorSanitizer on the inputs of this run, while the results of the same '
         'executions are compared with the model whose bounds/progress theorems are proved',
-        'libFuzzer (coverage-guided search), clang/gcc sanitizer runtimes, glibc regcomp/regexec, libks buffer/vector (exercised, not modelled)',
+        'libFuzzer (coverage-guided search), clang/gcc sanitizer runtimes, glibc regcomp/regexec; libks vector as far as Model/L0/Vector.lean goes; '
+        'libks buffer: modelled at index level (Model/L0/Buffer.lean, C07_L0_buffer_*) and compared with the real buffer.c on operation sequences '
+        'at every capacity boundary; realloc/calloc failure and size_t overflow are not modelled',
     ])
     quick = rep.tier == 'quick'
     nseed = 500 if quick else 3000
@@ -365,6 +368,9 @@ def run(rep):
     d.conclude('message.c (message_parse, parseattachments, message_get_body, decoders) <-> Model/Header.lean, Mime.lean, Decode.lean on hostile inputs')
     # 2b. the index-level model (bounds-checked accesses, C07_L0_*) against the list model just compared with the C code
     l0stats = l0_stage(rep, rng, pool, quick)
+    # 2c. the growable buffer every string is built in: real libks/buffer.c under ASan+UBSan <-> index-level model <-> append statement,
+    # operation sequences landing on, below and above every capacity (tools/lbuf.py); its own random stream
+    bstage = lbuf.stage(rep, sc, random.Random(rep.seed * 7919 + 7), 4000 if quick else 60000, big=True)
     # evaluator with the battery
     h2, env2 = ec.harness(sc)
     env2 = dict(env2, LC_ALL='C')     # the model's regex oracle runs in the C locale
@@ -376,7 +382,7 @@ def run(rep):
             continue
         conf, pats = blocks[rng.randrange(len(blocks))]
         cases.append(ec.Case(conf, pats, m, rng.choice(['new', 'cur']), rng.choice(['1.host', '2.host:2,S', '3.host:2,FRS', '4.host:2,abcXYZ']), '1'))
-    ec.run_cases(h2, env2, cases, want_spec=False)
+    ec.run_cases(h2, env2, cases, want_spec=False, denv=dict(os.environ, LC_ALL='C'))
     ebad, efault, enoeval = [], 0, 0
     tri = {}
     for c in cases:
@@ -441,7 +447,8 @@ def run(rep):
         'process_outcomes': pstat,
         'coverage_search': fstats,
         'index_level_model_vs_list_model': l0stats,
-        'correspondence_mismatches': len(d.corr_mismatch) + len(ebad) + l0stats['disagreements'],
+        'libks_buffer': bstage,
+        'correspondence_mismatches': len(d.corr_mismatch) + len(ebad) + l0stats['disagreements'] + bstage['model_mismatches'],
         'sanitizer_faults': len(d.faults) + efault + len(arts),
     })
     rep.assumptions += ['C locale; inputs up to 64 KiB; one hostile message per run next to one control message',
@@ -453,7 +460,9 @@ def replay(rep, path):
     sc = vlib.Scratch()
     vlib.lean_gate(rep, 'C07', sc, [])
     data = bytes.fromhex(j.get('input_hex') or j.get('message_hex') or '')
-    if 'request' in j and not data:
+    if str(j.get('stage', '')).startswith('libks buffer'):
+        lbuf.replay(rep, sc, j)
+    elif 'request' in j and not data:
         h, env = mc.harness(sc)
         print(vlib.run_batch([h], [j['request']], env))
     else:
